@@ -375,7 +375,13 @@ func (w *World) verifyFunc(fn *ssa.Function, ct *Contract, safetyProps []string)
 		v.vals[p] = t
 		v.params[p.Name()] = t
 	}
-	for k, nm := range v.ifaceNames {
+	// a plain function wired in through a function adapter (XxxFunc(f).Method calls f) implements the
+	// interface method without its receiver: the interface's first parameter name is skipped
+	ifn := v.ifaceNames
+	if fn.Signature.Recv() == nil && len(ifn) == len(fn.Params)+1 {
+		ifn = ifn[1:]
+	}
+	for k, nm := range ifn {
 		if k < len(fn.Params) {
 			if _, clash := v.params[nm]; !clash {
 				v.params[nm] = v.vals[fn.Params[k]]
@@ -461,7 +467,7 @@ func (v *fnVC) exFor(cur, old *State, extra map[string]*T) *Ex {
 	}
 	if rng := v.mapRange(); rng != nil {
 		x.visHeap = visitedHeap(rng)
-		x.visKey = v.e.sortOf(rng.X.Type().Underlying().(*types.Map).Key())
+		x.visKey = v.rangeKeySort(rng)
 	}
 	if v.ct != nil && v.ct.YieldN != "" && cur != nil {
 		x.vars["yielded"] = cur.get(ghostYielded, sI64)
@@ -847,9 +853,7 @@ func (v *fnVC) havocWrites(in ssa.Instruction, st *State, pre *State) {
 	case *ssa.Next:
 		hv("iter$"+in.(*ssa.Next).Iter.Name(), sInt)
 		if rng, ok := i.Iter.(*ssa.Range); ok {
-			if mt, ok := rng.X.Type().Underlying().(*types.Map); ok {
-				hv(visitedHeap(rng), arrSort(v.e.sortOf(mt.Key()), sBool))
-			}
+			hv(visitedHeap(rng), arrSort(v.rangeKeySort(rng), sBool))
 		}
 	}
 }
@@ -867,17 +871,16 @@ func (v *fnVC) hasYieldFn() bool {
 // visitedHeap names the ghost set of keys a map range has already yielded.
 func visitedHeap(rng *ssa.Range) string { return "RV$" + sanitize(rng.Name()) }
 
-// mapRange returns the function's map range instruction if it has exactly one.
+// mapRange returns the function's range instruction over a map or a string if it has exactly one
+// (the ghost set visited(k) of an invariant refers to it: keys of the map, byte indices of the string).
 func (v *fnVC) mapRange() *ssa.Range {
 	var found *ssa.Range
 	n := 0
 	for _, b := range v.fn.Blocks {
 		for _, in := range b.Instrs {
 			if r, ok := in.(*ssa.Range); ok {
-				if _, isMap := r.X.Type().Underlying().(*types.Map); isMap {
-					found = r
-					n++
-				}
+				found = r
+				n++
 			}
 		}
 	}
@@ -885,6 +888,14 @@ func (v *fnVC) mapRange() *ssa.Range {
 		return found
 	}
 	return nil
+}
+
+// rangeKeySort: sort of the elements of the visited set of a range (map keys / string byte indices).
+func (v *fnVC) rangeKeySort(rng *ssa.Range) *Sort {
+	if mt, ok := rng.X.Type().Underlying().(*types.Map); ok {
+		return v.e.sortOf(mt.Key())
+	}
+	return sI64
 }
 
 func (v *fnVC) havocType(t types.Type, hv func(string, *Sort)) {
